@@ -6,6 +6,7 @@ package main
 import (
 	"fmt"
 	"go/ast"
+	"go/token"
 	"go/types"
 )
 
@@ -208,4 +209,184 @@ func identObj(info *types.Info, e ast.Expr) types.Object {
 		return o
 	}
 	return info.Uses[id]
+}
+
+// checkReceiverWrites: a method declared on a value receiver that assigns a
+// field of its receiver (or the receiver itself) changes a copy: the write is
+// lost.  One obligation per named type.
+func checkReceiverWrites(c *Ctx, r *Rec, rule string, n *types.Named) {
+	role := c.roleOf(n.Obj().Pkg())
+	info := c.info(role)
+	ms := c.methodsOf(n)
+	bad := ""
+	for _, name := range sortedKeys(ms) {
+		fd := ms[name]
+		fn := c.funcOf(fd)
+		sig := fn.Type().(*types.Signature)
+		if _, isPtr := sig.Recv().Type().(*types.Pointer); isPtr {
+			continue
+		}
+		recv := recvObj(info, fd)
+		if recv == nil {
+			continue
+		}
+		ast.Inspect(fd.Body, func(x ast.Node) bool {
+			mark := func(e ast.Expr, pos token.Pos) {
+				e = ast.Unparen(e)
+				if isObj(info, e, recv) {
+					bad = fmt.Sprintf("%s has a value receiver and assigns the receiver itself at %s: the caller's collection is unchanged", name, c.pos(pos))
+				}
+				if se, ok := e.(*ast.SelectorExpr); ok && selectorField(info, se) != nil && isObj(info, se.X, recv) {
+					bad = fmt.Sprintf("%s has a value receiver and writes the field %s at %s: the write lands on a copy and is lost", name, se.Sel.Name, c.pos(pos))
+				}
+			}
+			switch s := x.(type) {
+			case *ast.AssignStmt:
+				for _, l := range s.Lhs {
+					mark(l, s.Pos())
+				}
+			case *ast.IncDecStmt:
+				mark(s.X, s.Pos())
+			}
+			return true
+		})
+	}
+	r.check(bad == "", rule, role+"."+n.Obj().Name()+"/receivers", c.pos(n.Obj().Pos()), "every method that writes the receiver's state has a pointer receiver", bad)
+}
+
+// coveringLoop: the loop visits every element of its source: its condition is
+// exactly X.HasNext() and nothing in the body leaves or skips an iteration
+// (break, return, goto, continue).  Returns "" or a complaint.
+func coveringLoop(c *Ctx, info *types.Info, loop ast.Stmt) (types.Object, string) {
+	switch l := loop.(type) {
+	case *ast.RangeStmt:
+		bad := ""
+		inspectNoLit(l.Body, func(x ast.Node) bool {
+			switch s := x.(type) {
+			case *ast.BranchStmt:
+				bad = fmt.Sprintf("a %s at %s ends or skips an iteration", s.Tok, c.pos(s.Pos()))
+			case *ast.ReturnStmt:
+				bad = fmt.Sprintf("a return at %s leaves the loop early", c.pos(s.Pos()))
+			}
+			return true
+		})
+		return nil, bad
+	case *ast.ForStmt:
+		if l.Cond == nil {
+			return nil, "the loop has no condition"
+		}
+		it := findIterCond(info, l.Cond, "HasNext")
+		if it == nil {
+			return nil, "the loop condition is not `iterator.HasNext()`"
+		}
+		if _, isCall := ast.Unparen(l.Cond).(*ast.CallExpr); !isCall {
+			return it, "the loop condition is " + exprStr(l.Cond) + ", not just `iterator.HasNext()`: the traversal can stop before the last element"
+		}
+		bad := ""
+		inspectNoLit(l.Body, func(x ast.Node) bool {
+			switch s := x.(type) {
+			case *ast.BranchStmt:
+				bad = fmt.Sprintf("a %s at %s ends or skips an iteration: not every element of the operand is processed", s.Tok, c.pos(s.Pos()))
+			case *ast.ReturnStmt:
+				bad = fmt.Sprintf("a return at %s leaves the loop early: not every element of the operand is processed", c.pos(s.Pos()))
+			}
+			return true
+		})
+		return it, bad
+	}
+	return nil, "not a loop"
+}
+
+// bulkFold checks that fd is a fold of the single-element method over its
+// operand: one covering loop over param.GetIterator(), whose body calls
+// recv.single(element ...) unconditionally at its top level.
+func bulkFold(c *Ctx, info *types.Info, fd *ast.FuncDecl, single string, onRecvOrLocal bool) string {
+	params := paramObjs(info, fd)
+	loops := loopsIn(fd.Body)
+	if len(loops) != 1 {
+		return fmt.Sprintf("%d loops, required one loop over the operand", len(loops))
+	}
+	it, bad := coveringLoop(c, info, loops[0])
+	if bad != "" {
+		return bad
+	}
+	// the iterator enumerates a parameter
+	srcOK := false
+	ast.Inspect(fd.Body, func(x ast.Node) bool {
+		if lhs, rhs, ok := multiDef(x); ok && len(lhs) == 1 && it != nil && identObj(info, lhs[0]) == it {
+			if rx, mname, _, ok := methodCall(ast.Unparen(rhs)); ok && mname == "GetIterator" {
+				for _, p := range params {
+					if isObj(info, rx, p) {
+						srcOK = true
+					}
+				}
+			}
+		}
+		return true
+	})
+	if rs, ok := loops[0].(*ast.RangeStmt); ok {
+		for _, p := range params {
+			if isObj(info, rs.X, p) {
+				srcOK = true
+			}
+		}
+	}
+	if !srcOK {
+		return "the loop does not enumerate the operand"
+	}
+	var body *ast.BlockStmt
+	var elem types.Object
+	switch l := loops[0].(type) {
+	case *ast.ForStmt:
+		body = l.Body
+	case *ast.RangeStmt:
+		body = l.Body
+		elem = identObj(info, l.Value)
+	}
+	found := false
+	for _, s := range body.List {
+		if lhs, rhs, ok := multiDefStmt(s); ok && len(lhs) == 1 && it != nil && methodCallOn(info, ast.Unparen(rhs), it, "GetNext") {
+			elem = identObj(info, lhs[0])
+			continue
+		}
+		// a top-level statement (not an if/switch) containing recv.single(... derived from elem ...)
+		switch s.(type) {
+		case *ast.IfStmt, *ast.SwitchStmt, *ast.ForStmt, *ast.RangeStmt, *ast.TypeSwitchStmt:
+			continue
+		}
+		ast.Inspect(s, func(x ast.Node) bool {
+			if _, mname, call, ok := methodCall(x); ok && mname == single && len(call.Args) >= 1 {
+				uses := false
+				for _, a := range call.Args {
+					ast.Inspect(a, func(y ast.Node) bool {
+						if id, ok := y.(*ast.Ident); ok && elem != nil && info.Uses[id] == elem {
+							uses = true
+						}
+						return true
+					})
+					src := resolveInitIn(info, body, a)
+					if methodCallOn(info, src, it, "GetNext") {
+						uses = true
+					}
+					ast.Inspect(src, func(y ast.Node) bool {
+						if id, ok := y.(*ast.Ident); ok && elem != nil && info.Uses[id] == elem {
+							uses = true
+						}
+						return true
+					})
+					if methodCallOn(info, ast.Unparen(a), it, "GetNext") {
+						uses = true
+					}
+				}
+				if uses {
+					found = true
+				}
+			}
+			return true
+		})
+	}
+	if !found {
+		return "the loop body does not unconditionally apply " + single + " to the element it visits"
+	}
+	return ""
 }
